@@ -127,7 +127,7 @@ def paint_attrs(rng, F, own=True):
         if rng.random() < 0.15:
             at.append(("stroke-miterlimit", rng.choice(["1", "4", "10"])))
         if rng.random() < 0.2:
-            at.append(("stroke-dasharray", rng.choice(["5,3", "5 3 2", "4", "none", "6, 2, 1, 2"])))
+            at.append(("stroke-dasharray", rng.choice(["5,3", "5 3 2", "4", "none", "6, 2, 1, 2", "0 9", "0 6", "12 0 3"])))
             if rng.random() < 0.5:
                 at.append(("stroke-dashoffset", rng.choice(["0", "2", "5.5"])))
         if F.opacity and rng.random() < 0.2:
@@ -235,6 +235,12 @@ class Gen:
         rng, F = self.rng, self.F
         n = rng.randint(0 if F.degenerate else 1, F.max_children)
         kids = [self.node(depth + 1) for _ in range(n)]
+        if F.unsupported and rng.random() < 0.2:
+            # a translucent group that is left with one child when its unsupported sibling is dropped
+            bad = rng.choice(['<image width="5" height="5"/>', "<foo/>", '<mask id="m%d"><rect width="1" height="1"/></mask>' % rng.randint(0, 99)])
+            pair = [self.shape(depth + 1), bad]
+            rng.shuffle(pair)
+            return '<g opacity="%s">%s</g>' % (rng.choice(["0.5", "0.25"]), "".join(pair))
         if F.degenerate and rng.random() < 0.25:
             # a group whose content vanishes during conversion (pruned shapes), possibly next to one survivor
             gone = ['<rect width="9" height="9" fill="none"/>', '<circle r="5" display="none"/>', '<path d="M1,1 L9,1" />',
@@ -346,8 +352,11 @@ class Gen:
         if rng.random() < 0.2:
             at += ' spreadMethod="%s"' % rng.choice(["pad", "reflect", "repeat"])
         stop_ids = rng.random() < 0.15
+        offs = ["0", "0.5", "1"][: rng.randint(2, 3)]
+        if rng.random() < 0.1:
+            offs = rng.choice([["0", "0.6", "0.3", "1"], ["0.4", "0.2", "0.9"], ["0", "0.7", "0.7", "0.5"]])   # not increasing: clamped
         stops = "".join('<stop%s offset="%s" stop-color="%s"/>' % (' id="%s"' % self.new_id("st") if stop_ids else "", o, rng.choice(COLORS))
-                        for o in ["0", "0.5", "1"][: rng.randint(2, 3)])
+                        for o in offs)
         href = ""
         if self.grad_ids and rng.random() < 0.25:
             self.xlink = True
@@ -385,6 +394,9 @@ class Gen:
             defs += [self.gradient() for _ in range(rng.randint(1, 3))]
         if F.clips:
             defs += [self.clippath() for _ in range(rng.randint(1, 3))]
+        if F.gradients and self.grad_ids and rng.random() < 0.15:
+            # a template shape inside defs that nobody instantiates: it must not count as a user of its gradient
+            defs.append('<rect id="%s" width="12" height="9" fill="url(#%s)"/>' % (self.new_id("t"), rng.choice(self.grad_ids)))
         body = [self.node(1) for _ in range(rng.randint(1, F.max_children + 1))]
         root = ""
         vb = rng.choice(["0 0 100 100", "0 0 100 100", "0 0 128 128", "10 10 80 80", "0 0 120 80", "0 0 90 140"])
